@@ -181,6 +181,19 @@ impl TransportState {
     }
 }
 
+#[cfg(feature = "verif-hooks")]
+impl TransportState {
+    /// Verification hook: set the forthcoming *outbound* nonce value, so that a harness can place
+    /// the stateful sender next to the 2^64-1 boundary.
+    pub fn verif_set_sending_nonce(&mut self, nonce: u64) {
+        if self.initiator {
+            self.cipherstates.0.set_nonce(nonce);
+        } else {
+            self.cipherstates.1.set_nonce(nonce);
+        }
+    }
+}
+
 impl fmt::Debug for TransportState {
     fn fmt(&self, fmt: &mut fmt::Formatter<'_>) -> fmt::Result {
         fmt.debug_struct("TransportState").finish()
